@@ -9,7 +9,7 @@
    outcomes Contract (a TETL_PRECONDITION in unchecked_get / operator* / error() fired),
    UB and OutOfFuel. *)
 From Tetl Require Import Lib.Base C07.Types C07.Model C07.Spec C07.Dispatch C07.VariantProofs
-  C07.OptionalProofs C07.ExpectedProofs C07.RefProofs C07.SelectProofs.
+  C07.OptionalProofs C07.ExpectedProofs C07.RefProofs C07.SelectProofs C07.Mutants.
 Local Open Scope nat_scope.
 
 (** * visit: the dispatcher reaches exactly the tuple of active indices — any arity, any sizes *)
@@ -233,6 +233,31 @@ Theorem C07_unexpected_refines_std : forall E ops s, urun E s ops = su_run E s o
 Proof. exact urun_refines. Qed.
 Print Assumptions C07_unexpected_refines_std.
 
+(** * the specifications reject the repaired behaviours (models of the pre-fix code, Mutants.v) *)
+Theorem C07_prefix_optional_ref_from_empty_refuted :
+  ref_from_opt_prefix opt_empty = Contract /\ ref_from_opt opt_empty = Ok None
+  /\ (forall sr, ref_from_opt_prefix sr <> Ok None).
+Proof. exact ref_from_opt_prefix_refuted. Qed.
+Print Assumptions C07_prefix_optional_ref_from_empty_refuted.
+
+Theorem C07_prefix_expected_swapped_overloads_refuted :
+  let s := {| idx := 0; val := 1%Z |} in
+  let f := fun v : Z => (true, v) in
+  wfe s
+  /\ (exists m, exp_and_then_q_prefix TTr TTr2 QR s f true = Ok m
+        /\ abs_qres m <> se_and_then_q TTr TTr2 QR (abse s) f true)
+  /\ (exists m, exp_and_then_q_prefix TTr TTr2 QC s f false = Ok m
+        /\ abs_qres m <> se_and_then_q TTr TTr2 QC (abse s) f false).
+Proof. exact exp_and_then_q_prefix_refuted. Qed.
+Print Assumptions C07_prefix_expected_swapped_overloads_refuted.
+
+Theorem C07_prefix_selection_without_narrowing_refuted :
+  select_prefix [TBool; TTr] TInt = Some 0 /\ select [TBool; TTr] TInt = Some 1
+  /\ select_prefix [TBool; TStr] TPtr = Some 0 /\ select [TBool; TStr] TPtr = Some 1
+  /\ select_prefix [TFloat; TLong] TInt = None /\ select [TFloat; TLong] TInt = Some 1.
+Proof. exact select_prefix_refuted. Qed.
+Print Assumptions C07_prefix_selection_without_narrowing_refuted.
+
 (** non-vacuity: the hypotheses are met by ordinary objects and the statements are not trivial
     (a history that changes alternative, moves, swaps; a dispatch over three variants; the
     selection rule on the fixed defect's witness variant<bool, Tracked>{int}) *)
@@ -246,7 +271,16 @@ Example C07_nonvacuous :
   /\ select [TBool; TTr] TInt = Some 1 /\ select [TFloat; TLong] TInt = Some 1
   /\ select [TInt; TFloat] TDouble = None
   /\ wfos (opt_empty, opt_empty, opt_empty)
-  /\ opt_rel 2 opt_empty (replace 1 5%Z) = Ok true.
+  /\ opt_rel 2 opt_empty (replace 1 5%Z) = Ok true
+  /\ select [TBool; TStr] TPtr = Some 1
+  (* optional<T const&>: source := 5; a := O(src); b := a; source := 6; both read 6 through &*src *)
+  /\ (let s0 := {| cells := [1; 2; 3]%Z; src := opt_empty; pa := None; pb := None; pz := None |} in
+      wfr s0
+      /\ exists s', rrun TInt s0 [RSrcAssign 5%Z; RFromOpt false; RCopy true; RSrcAssign 6%Z] = Ok s'
+          /\ pa s' = Some RSrc /\ pb s' = Some RSrc /\ ref_deref (cells s') (src s') (pb s') = Ok 6%Z)
+  /\ sr_run (absr {| cells := [1; 2; 3]%Z; src := opt_empty; pa := None; pb := None; pz := None |})
+        [RSrcAssign 5%Z; RFromOpt false; RSrcReset; RWrite false 7%Z] = None.
 Proof.
   vm_compute. repeat split; try congruence; repeat constructor.
+  eexists. repeat split.
 Qed.
